@@ -168,18 +168,20 @@ func c20(r *engine.Report, p *engine.Program) {
 			return n > 0
 		}
 		ok := false
-		for _, b := range mk.Blocks {
-			for _, in := range b.Instrs {
-				st, isS := in.(*ssa.Store)
-				if !isS {
-					continue
-				}
-				fa, isF := st.Addr.(*ssa.FieldAddr)
-				if !isF || engine.FieldAddrVar(fa).Name() != "Bytes" {
-					continue
-				}
-				if reparsed(mk, st.Val, 0) {
-					ok = true
+		for _, ef := range encCone {
+			for _, b := range ef.Blocks {
+				for _, in := range b.Instrs {
+					st, isS := in.(*ssa.Store)
+					if !isS {
+						continue
+					}
+					fa, isF := st.Addr.(*ssa.FieldAddr)
+					if !isF || engine.FieldAddrVar(fa).Name() != "Bytes" {
+						continue
+					}
+					if reparsed(ef, st.Val, 0) {
+						ok = true
+					}
 				}
 			}
 		}
